@@ -839,6 +839,10 @@ def impl_roundtrip(case):
                       B.as_expression(to_str(q["hi"])))
             if case.get("plus"):
                 e = e + B.as_expression(case["plus"])
+        elif case.get("via_parser"):
+            # built by the parser itself, not through the backend's reading of text: what the backend READS BACK must still be it
+            from bartiq.symbolics.sympy_backend import parse_to_sympy
+            e = parse_to_sympy(to_str(case["expr"]))
         else:
             e = B.as_expression(to_str(case["expr"])) if "expr" in case else B.as_expression(case["text"])
         if case.get("assign"):
